@@ -471,6 +471,18 @@ def inject(toks, body_open, spec, ret, ats, loops, sigparams, audit, item, verus
             inserts.append((body_open + 1, '\n\t\t' + snippet.strip() + '\n\t\t'))
             n_inj += 1
             continue
+        if mode in ('loopend', 'loopstart'):
+            lo = loop_body_opens(toks, body_open + 1, body_close)
+            k = int(anchor)
+            if k < 1 or k > len(lo):
+                audit.lost_hints.append((item, f'{mode} {k}', len(lo)))
+                continue
+            if mode == 'loopstart':
+                inserts.append((lo[k - 1] + 1, '\n\t\t' + snippet.strip() + '\n\t\t'))
+            else:
+                inserts.append((match_close(toks, lo[k - 1]), '\n\t\t' + snippet.strip() + '\n\t\t'))
+            n_inj += 1
+            continue
         needle = sig_tokens(lex(anchor))
         hits = find_token_seq(toks, needle, body_open, body_close + 1)
         if len(hits) != 1:
@@ -489,7 +501,9 @@ def inject(toks, body_open, spec, ret, ats, loops, sigparams, audit, item, verus
         if not _starts_with(snippet, LOOP_STARTS):
             raise ExtractError(f"{item}: injected loop spec must start with invariant/decreases")
         if k < 1 or k > len(opens):
-            raise ExtractError(f"ANCHOR-LOST {item}: loop ordinal {k} (function has {len(opens)} loops)")
+            # a loop that no longer exists: its invariant is dropped, the function is verified in degraded mode
+            audit.lost_hints.append((item, f'loop {k}', len(opens)))
+            continue
         inserts.append((opens[k - 1], '\n' + snippet.rstrip() + '\n\t\t'))
         n_inj += 1
         if itname:
@@ -732,7 +746,7 @@ def extract_item(kind, kv, sections, unit_rewrites, extra_drop, audit, verus):
     toks = load_tokens(relpath)
     start, end, depth0 = resolve_scope(toks, scope, relpath)
     if kind == 'fn':
-        hits = find_fn(toks, start, end, name, depth0)
+        hits = find_fn(toks, start, end, name, None if kv.get('anydepth') else depth0)
         if kv.get('nth'):
             hits = [hits[int(kv['nth']) - 1]] if len(hits) >= int(kv['nth']) else []
         if len(hits) != 1:
@@ -790,6 +804,8 @@ def extract_item(kind, kv, sections, unit_rewrites, extra_drop, audit, verus):
             ats.append((d, unq(mm.group(1)), btxt))
         elif d == 'start':
             ats.append(('start', '', btxt))
+        elif d in ('loopend', 'loopstart'):
+            ats.append((d, arg.strip(), btxt))
         elif d == 'loop':
             la = arg.split()
             itname = None
